@@ -1,6 +1,10 @@
 (* C19 -- proofs about the option-resolution model Sys/Config.v. *)
 From Coq Require Import List NArith ZArith Bool String Lia.
-From NB Require Import Base.Json Base.Res Diff.Codec Gen.ConfigClasses Sys.Config.
+From NB Require Import Base.Json.
+From NB Require Import Base.Res.
+From NB Require Import Diff.Codec.
+From NB Require Import Gen.ConfigClasses.
+From NB Require Import Sys.Config.
 Import ListNotations.
 Local Open Scope list_scope.
 
@@ -694,7 +698,7 @@ Proof.
   rewrite (first_set_filter (look_opt files o) (inA o) (truncG _ _)); [|intros S; apply look_opt_outside; exact W].
   rewrite C.
   rewrite <- (first_set_filter (look_opt files o) (inA o) (spec_sections ep)); [|intros S; apply look_opt_outside; exact W].
-  fold (look_opt files o). unfold look_opt at 1.
+  unfold look_opt.
   destruct (first_set (fun S => files_get (fun f => file_get f S o) files) (spec_sections ep)); auto.
   unfold builtin_default. rewrite mdefault_mdefG. reflexivity.
 Qed.
@@ -860,3 +864,27 @@ Example ignore_merge_nonvacuous :
   canon_res (installed_ignore (of_ascii "nbmerge") ex_files)
   = Ok (JObj [(of_ascii "/cells/*/outputs", JBool true); (of_ascii "/metadata", JArr [JStr (of_ascii "foo")])]).
 Proof. vm_compute. split; reflexivity. Qed.
+
+(* ================= statements as they appear in Props/C19.v ================= *)
+Lemma effective_value_spec_full ep o files flags :
+  In ep ep_names -> In o (options ep) -> o <> kIgnore ->
+  o <> kLog -> ~ (ep = kServer /\ o = kPort) ->          (* the two known deviations, see the _refuted theorems *)
+  wf_filesb files = true ->
+  effective ep files flags o = Ok (spec_effective ep files flags o).
+Proof.
+  intros Hep Ho N N1 N2 W. apply effective_value_spec_lemma; auto. apply conforms_exceptions; auto.
+Qed.
+
+Lemma cwd_file_wins_full ep o cwd rest flags :
+  In ep ep_names -> In o (options ep) -> o <> kIgnore -> o <> kLog -> ~ (ep = kServer /\ o = kPort) ->
+  wf_filesb (cwd :: rest) = true ->
+  (forall S f, In S (spec_sections ep) -> In f rest -> file_get f S o <> None -> file_get cwd S o <> None) ->
+  effective ep (cwd :: rest) flags o = effective ep [cwd] flags o.
+Proof.
+  intros Hep Ho N N1 N2 W H. apply cwd_file_wins_lemma; auto. apply conforms_exceptions; auto.
+Qed.
+
+Lemma ignore_merge_pathwise_full ep files p :
+  In ep ep_names -> wf_filesb files = true ->
+  exists ign, installed_ignore ep files = Ok (JObj ign) /\ dget p ign = spec_ignore_path ep files p.
+Proof. intros Hep W. apply ignore_merge_pathwise_lemma; auto. apply conforms_ign_all; exact Hep. Qed.
